@@ -2396,6 +2396,8 @@ class BSP:
         add_faces = find_or_extend(self.faces)
 
         buf = BytesIO()
+        # Chaos stores the bounding box as floats, all other formats use integers.
+        coord: Callable[[float], float] = float if self.version is VERSIONS.CHAOSSOURCE else int
 
         node: VisTree
         for node in nodes:
@@ -2410,8 +2412,8 @@ class BSP:
 
             buf.write(self.lump_layout['NODE'].pack(
                 add_plane(node.plane), neg_ind, pos_ind,
-                int(node.mins.x), int(node.mins.y), int(node.mins.z),
-                int(node.maxes.x), int(node.maxes.y), int(node.maxes.z),
+                coord(node.mins.x), coord(node.mins.y), coord(node.mins.z),
+                coord(node.maxes.x), coord(node.maxes.y), coord(node.maxes.z),
                 add_faces(node.faces), len(node.faces), node.area_ind,
             ))
 
@@ -2431,6 +2433,8 @@ class BSP:
 
         # Some extra ambient light data.
         has_ambient = self.version <= 19
+        # Chaos stores the bounding box as floats, all other formats use integers.
+        coord: Callable[[float], float] = float if self.version is VERSIONS.CHAOSSOURCE else int
 
         for leaf in visleafs:
             # Do not deduplicate these, engine assumes they aren't when allocating memory.
@@ -2453,8 +2457,8 @@ class BSP:
                 leafdata: tuple[Union[int, bytes], ...] = (
                     leaf.contents.value, leaf.cluster_id,
                     (leaf.area << self.lump_layout['LEAF_AREA_OFFSET'] | leaf.flags.value),
-                    int(leaf.mins.x), int(leaf.mins.y), int(leaf.mins.z),
-                    int(leaf.maxes.x), int(leaf.maxes.y), int(leaf.maxes.z),
+                    coord(leaf.mins.x), coord(leaf.mins.y), coord(leaf.mins.z),
+                    coord(leaf.maxes.x), coord(leaf.maxes.y), coord(leaf.maxes.z),
                     face_ind, len(leaf.faces),
                     brush_ind, len(leaf.brushes),
                     leaf.water_id)
